@@ -17,6 +17,14 @@ HIST_PROPS = set(hist.PROPS)
 def check(prop, tier):
     t0 = time.time()
     verdict = C.Verdict(prop)
+    # replay artefacts of earlier runs of this property are stale once it is re-run
+    import glob
+    import os
+    for old in glob.glob(os.path.join(C.REPLAYS_TMP, prop + "-*")):
+        try:
+            os.remove(old)
+        except OSError:
+            pass
     if prop in HIST_PROPS and prop not in SIMPLE:
         n, info = hist.run_check(prop, tier, verdict)
         if info is None:
